@@ -1287,3 +1287,9 @@ Proof.
   - intros i Hi. apply getz_nz_all; [reflexivity|lia].
   - eapply (xr_step go_tmpl html_hash_Svg d 4 true 0 0 1 false 0 0 5); [reflexivity|reflexivity|apply xr_refl].
 Qed.
+
+(* statement form used by Props/C09.v (arguments in the order of the statement) *)
+Lemma html_template_flag_sound_stmt : forall c d l ty tk l', cfg_ok c -> tb c <> [] -> html_inv d l ->
+  next c l = Ok (ty, tk, l') -> lhas l' = true ->
+  exists p q, lpos (lz l) <= p /\ q <= lpos (lz l') /\ is_region c d p q.
+Proof. intros c d l ty tk l' Hc Htb. exact (html_template_flag_sound_proof c d Hc Htb l ty tk l'). Qed.
